@@ -34,6 +34,22 @@ theorem login_tables (st : St) (now addr : Nat) (good : Bool) (user : Nat) :
       | true => right; rw [evalLogin_good]; exact ⟨rfl, rfl, rfl⟩
       | false => left; rw [evalLogin_bad]; exact ⟨rfl, rfl, rfl⟩
 
+theorem basic_tables (fixB : Bool) (st : St) (now : Nat) (r : Req) (good : Bool) :
+    (basicAuthX fixB st now r good).2.mem = st.mem ∧ (basicAuthX fixB st now r good).2.db = st.db ∧
+    (basicAuthX fixB st now r good).2.nextTok = st.nextTok := by
+  unfold basicAuthX
+  cases fixB with
+  | false => exact ⟨rfl, rfl, rfl⟩
+  | true =>
+    simp only [Bool.not_true, Bool.false_eq_true, if_false]
+    cases st.rl with
+    | none => exact ⟨rfl, rfl, rfl⟩
+    | some l =>
+      simp only
+      split
+      · exact ⟨rfl, rfl, rfl⟩
+      · split <;> exact ⟨rfl, rfl, rfl⟩
+
 theorem stale_step {st : St} {tok B now : Nat} (h : Stale st tok B) (hB : B ≤ now32 now) (o : Op) :
     Stale (step st now o).2 tok B ∧ (o = .request tok → (step st now o).1 = .auth false) := by
   obtain ⟨hlt, hm, hd⟩ := h
@@ -47,6 +63,11 @@ theorem stale_step {st : St} {tok B now : Nat} (h : Stale st tok B) (hB : B ≤ 
       refine ⟨by rw [e1]; omega, ?_, ?_⟩
       · intro s hs; rw [e2] at hs; simp [FMap.set, hne] at hs; exact hm s hs
       · intro s hs; rw [e3] at hs; simp [FMap.set, hne] at hs; exact hd s hs
+  | basic req good =>
+    refine ⟨?_, fun e => by cases e⟩
+    obtain ⟨e1, e2, e3⟩ := basic_tables true st now req good
+    simp only [step]
+    exact ⟨by rw [e3]; exact hlt, by rw [e1]; exact hm, by rw [e2]; exact hd⟩
   | request t =>
     simp only [step]
     unfold checkSession
@@ -145,6 +166,7 @@ theorem stepF_true (st : St) (now : Nat) (o : Op) : stepF st now true o = step s
   cases o with
   | login req good user =>
     simp only [stepF, step, handleLoginF, handleLogin, loginAt, evalLoginF, evalLogin, if_true]
+  | basic req good => rfl
   | request tok => simp only [stepF, step, checkSessionF, checkSession, if_true]
   | logout tok => simp only [stepF, step, logoutF, logout, if_true]
   | restart => rfl
@@ -186,6 +208,11 @@ theorem memGone_step {st : St} {tok now : Nat} (h : MemGone st tok) (o : Op) (ho
     · exact ⟨by rw [e1]; exact hlt, by rw [e2]; exact hm⟩
     · have hne : tok ≠ st.nextTok := by omega
       exact ⟨by rw [e1]; omega, by rw [e2]; simp [FMap.set, hne, hm]⟩
+  | basic req good =>
+    refine ⟨?_, fun e => by cases e⟩
+    obtain ⟨e1, _, e3⟩ := basic_tables true st now req good
+    simp only [step]
+    exact ⟨by rw [e3]; exact hlt, by rw [e1]; exact hm⟩
   | request t =>
     simp only [step]
     by_cases ht : t = tok
